@@ -145,10 +145,11 @@ class RawSyncService(object):
     """Answers the first request of a sync: stream with the given raw bytes (any sequence of records, valid at that point or not)
     and then says nothing more; a CLSE from the host is answered as usual."""
 
-    def __init__(self, reply, cuts=None, then_close=False):
+    def __init__(self, reply, cuts=None, then_close=False, close_unacked=False):
         self.reply = bytes(reply)
         self.cuts = cuts
         self.then_close = then_close      # after the reply the service dies: adbd closes the stream
+        self.close_unacked = close_unacked   # the service is already dead when the request arrives: adbd answers the WRITE with CLSE, not with OKAY
         self.answered = False
         self.records = []
         self.out = []
@@ -161,6 +162,11 @@ class RawSyncService(object):
             return
         self.answered = True
         b = self.reply
+        if self.close_unacked and not b and self.then_close:
+            if st.acks and st.acks[-1] == ('OKAY', 'w'):
+                st.acks.pop()
+            st.acks.append(('CLSE',))
+            return
         if not b:
             if self.then_close:
                 st.data.append(('CLSE', b'', st.nwr))
@@ -320,6 +326,8 @@ class SyncService(object):
                 path, _, mode = spec.rpartition(b',')
                 self.fs.files[path.decode('utf8', 'replace')] = dict(mode=int(mode or b'0'), mtime=r['arg'], data=b''.join(self.cur['chunks']))
                 self.reply(st, wire.sync_record('OKAY', 0))
+                if getattr(self, 'surplus_okay', False):
+                    self.reply(st, wire.sync_record('OKAY', 0))       # a chatty service: the status is sent twice (nobody reads the second one)
             self.cur['lid'] = st.lid
             self.fs.pushed.append(self.cur)
             self.cur = None
